@@ -451,6 +451,25 @@ def shared_scan_file(repo, rel):
         seen.add(key)
         emit(pos, "typeUse", "", m.group(1), "", text, sc, stmt)
 
+    # --- a `*mut` pointer that is NOT obtained from a `&mut` (`.as_mut_ptr()`): `&x as *const T as *mut T`,
+    #     `p as *mut T`, `ptr::from_ref(..).cast_mut()`, `transmute` to a `&mut` — mutation behind a shared reference
+    #     is shared state even without a `static` or an interior-mutability type (kind `typeUse`, name `constToMut`,
+    #     class `other`: the model has no such item)
+    for m in re.finditer(r"\bas\s*\*\s*mut\b|\.cast_mut\s*\(|\bcast_mut\b|transmute\s*::\s*<[^>]*&\s*mut\b", masked):
+        pos = m.start()
+        before = norm_ws(noc[max(0, pos - 40):pos])
+        if before.endswith(".as_mut_ptr()") or before.endswith(".as_mut_ptr ()"):
+            continue
+        sc = innermost(scopes, pos)
+        ls = noc.rfind("\n", 0, pos) + 1
+        le = noc.find("\n", pos)
+        text = norm_ws(noc[ls:len(noc) if le < 0 else le])
+        key = (enclosing_path(sc), "constToMut", text)
+        if key in seen:
+            continue
+        seen.add(key)
+        emit(pos, "typeUse", "", "constToMut", "", text, sc, statement_before(masked, pos))
+
     # --- run-time feature detection sites (std's idempotent cache)
     sites = []
     for m in SHARED_DETECT_RE.finditer(noc):
